@@ -215,4 +215,61 @@ def stepIdxc (x : IdxcState) (toks : List String) : IdxcState × String :=
       | _, none => "unknown-subscriber")
   | _ => (x, "bad-op")
 
+/-! ### inf: an informer-backed collection (`krt.NewInformer[*v1.ConfigMap]` on the fake kube client), its
+    namespace index, its own subscribers and a derived collection.
+
+    case <n> inf
+    k.create <ns> <name> <val> | k.update <ns> <name> <val> | k.delete <ns> <name>     ok | exists | notfound
+    sync | sub <name> <kind> | isub <name> <kind>
+    list | get <key> | ilist | ilookup <ns> | stream <name> <event>* | istream <name> <event>* -/
+
+structure InfState where
+  objs : AMap (String × String) := []     -- key ↦ (namespace, value)
+  subs : AMap FinMap := []
+  isubs : AMap FinMap := []
+
+def infContents (x : InfState) : FinMap := x.objs.map (fun kv => (kv.1, kv.2.2))
+def infDerived (x : InfState) : FinMap := x.objs.map (fun kv => (kv.1, "d:" ++ kv.2.2))
+
+def stepInf (x : InfState) (toks : List String) : InfState × String :=
+  match toks with
+  | "case" :: _ => ({}, "ok")
+  | ["k.create", ns, name, val] =>
+    let k := ns ++ "/" ++ name
+    if (AMap.lookup x.objs k).isSome then (x, "exists")
+    else ({ x with objs := AMap.set x.objs k (ns, val) }, "ok")
+  | ["k.update", ns, name, val] =>
+    let k := ns ++ "/" ++ name
+    if (AMap.lookup x.objs k).isSome then ({ x with objs := AMap.set x.objs k (ns, val) }, "ok")
+    else (x, "notfound")
+  | ["k.delete", ns, name] =>
+    let k := ns ++ "/" ++ name
+    if (AMap.lookup x.objs k).isSome then ({ x with objs := AMap.erase x.objs k }, "ok")
+    else (x, "notfound")
+  | ["sync"] => (x, "ok")
+  | ["sub", name, kind] =>
+    ({ x with subs := AMap.set x.subs name (if kind == "nostate" then infDerived x else []) }, "ok")
+  | ["isub", name, kind] =>
+    -- informer.go: "runExistingState is NOT respected here": the informer always replays what it holds
+    ({ x with isubs := AMap.set x.isubs name (if kind == "never" then infContents x else []) }, "ok")
+  | ["list"] => (x, "list " ++ showMap (infDerived x))
+  | ["ilist"] => (x, "ilist " ++ showMap (infContents x))
+  | ["get", k] =>
+    (x, "get " ++ match AMap.lookup (infDerived x) k with
+      | none => "none"
+      | some v => v)
+  | ["ilookup", ns] =>
+    (x, "ilookup " ++ showMap ((x.objs.filter (fun kv => kv.2.1 == ns)).map (fun kv => (kv.1, kv.2.2))))
+  | "stream" :: name :: evs =>
+    (x, "stream " ++ match parseEvents evs, AMap.lookup x.subs name with
+      | some es, some m0 => showVerdict m0 es (infDerived x)
+      | none, _ => "reject:malformed-event"
+      | _, none => "unknown-subscriber")
+  | "istream" :: name :: evs =>
+    (x, "istream " ++ match parseEvents evs, AMap.lookup x.isubs name with
+      | some es, some m0 => showVerdict m0 es (infContents x)
+      | none, _ => "reject:malformed-event"
+      | _, none => "unknown-subscriber")
+  | _ => (x, "bad-op")
+
 end IstioModel.C16
